@@ -39,6 +39,10 @@
 (*            uses it only to classify a mismatch precisely; it is never   *)
 (*            the oracle for "held".                                       *)
 (*                                                                         *)
+(* BestIsMember = TRUE gives the situation right after Step 0 of a solver   *)
+(* whose members all have the same energy (best = member 0): the cases are *)
+(* then replayed through a whole real generation (see harness/c08_de.py).  *)
+(*                                                                         *)
 (* The machine: state = (population, best, last generated case); action    *)
 (* Gen = "generation step for candidate c with strategy s and draws d";    *)
 (* the trial may replace the parent (Accepts), so deeper populations are   *)
@@ -53,6 +57,7 @@ CONSTANTS Shapes,     \* set of <<NP, D>>
           Accepts,    \* subset of BOOLEAN: may a trial replace its parent (machine only)
           StratSet,   \* strategies explored
           AllCands,   \* TRUE: every candidate index; FALSE: first, middle, last
+          BestIsMember, \* FALSE: best is a vector different from every member; TRUE: best = member 0
           AllDraws    \* TRUE: every draw sequence for every strategy (else per crossover kind)
 
 VARIABLES pop, best, last, steps
@@ -159,7 +164,7 @@ NoCase == [s |-> "none", c |-> 0, f |-> 0, don |-> <<>>, n |-> 0, u |-> <<>>, pa
 
 Init == \E sh \in Shapes :
           /\ pop = Pop0(sh[1], sh[2])
-          /\ best = Best0(sh[2])
+          /\ best = IF BestIsMember THEN Pop0(sh[1], sh[2])[1] ELSE Best0(sh[2])
           /\ last = NoCase
           /\ steps = 0
 
